@@ -30,7 +30,8 @@ func (c06) Meta() fw.Meta {
 			"Monitor A after every session: the harness' independent byte parser checks big-endian header fields == requested, offsets contiguous from 16+12k in declaration order, length == 16+12k+12*sum(N), every non-empty slot j holds a step-aligned interval I with floor_mod((I-base)/S,N)==j. " +
 			"Monitor B after every session: go-whisper and whispertool open the same bytes on one shared virtual clock; metadata (method, xff, max retention, retentions) and Fetch(from,until) over ~25 non-degenerate windows must agree (bounds, step, values bitwise, NaN==NaN), also when both readers' clock is behind the writer's (slots then hold intervals newer than requested). Some files are created by whispertool over an existing longer zero-filled file (WithOpenFileFlag without O_EXCL). " +
 			"Every 8th case instead runs the real generate / copy / sum-copy binaries (incl. destinations created with nothing to copy) and applies Monitor A and the reference's Open to the files they wrote. non-trivial = file written by both libraries with at least one stale-lap or wrapped window compared; distinct by (layout, clock, ops)." +
-			" Every 8th case adds a file written by a creating session and a session whose Open queued behind it.",
+			" Every 8th case adds a file written by a creating session and a session whose Open queued behind it." +
+			" Every 2nd case lets batches carry points ahead of the clock and runs longer than the ring.",
 		Assumptions: []string{
 			"degenerate windows (aligned from == aligned until after clamping) are excluded as the property's quantifier does",
 			"both libraries run on the same virtual clock (whispertool.Now / explicit now, whisper.Now); clock domain as C01 but below 2^31 + 2^30 so that go-whisper's int arithmetic and the 32-bit file fields agree",
